@@ -101,7 +101,8 @@ pub fn run(sc: &Value, id: usize, out: Out) {
         let r = guarded(|| apply_step(&mut t, st));
         let calls = verif::stop();
         let mut ev = json!({"fam": "afftree", "sc": id, "step": j, "first": j == 0 || !record_all, "k": 2, "q": 1, "mode": "history", "op": op, "variant": "",
-                            "pre": pre.clone(), "aff": st.get("aff").cloned().unwrap_or(none()), "exp": none(),
+                            "pre": pre.clone(), "aff": st.get("aff").cloned().unwrap_or(none()),
+                            "exp": if last { sc.get("exp").cloned().unwrap_or(none()) } else { none() },
                             "faulty": !plan.is_empty(), "lp": lp_json(&calls, q), "last": last});
         match r {
             Ok((rhs_b, rhs_a, perf)) => {
